@@ -20,3 +20,14 @@ package rostdio
 //@   iteration ensures count(reader.Read) == 1 && res(reader.Read, 1) == nil
 //@   iteration ensures res(reader.Read, 0) > 0 ==> count(destination.NextWithContext) == 1 && before(reader.Read, destination.NextWithContext) && len(arg(destination.NextWithContext, 1)) == res(reader.Read, 0) && arg(destination.NextWithContext, 0) == ctx
 //@   iteration ensures res(reader.Read, 0) <= 0 ==> count(destination.NextWithContext) == 0
+
+//@ func NewIOReaderLine$1
+//@   note the subscribe function of NewIOReaderLine: one bufio.Reader.ReadLine per line, each line delivered as a private copy, then the reader's outcome
+//@   props C18
+//@   track destination.* loop.* call.NewReader
+//@   ensures [end-of-input-completes|C18] res(call.Reader.ReadLine, 2) == global_EOF ==> trace(call.NewReader(reader), loop.L0, destination.CompleteWithContext(ctx))
+//@   ensures [a-read-error-is-forwarded|C18] res(call.Reader.ReadLine, 2) != global_EOF ==> trace(call.NewReader(reader), loop.L0, destination.ErrorWithContext(ctx, res(call.Reader.ReadLine, 2)))
+
+//@ loop NewIOReaderLine$1#0
+//@   iteration ensures count(call.Reader.ReadLine) == 1 && res(call.Reader.ReadLine, 2) == nil
+//@   iteration ensures count(destination.NextWithContext) == 1 && before(call.Reader.ReadLine, destination.NextWithContext) && arg(destination.NextWithContext, 0) == ctx && len(arg(destination.NextWithContext, 1)) == len(res(call.Reader.ReadLine, 0))
